@@ -384,12 +384,34 @@ def scope_vars(program, unit):
                     return False
             else:
                 return False
+    # greatest fixpoint: a local is scope-like when *every* assignment to it is scope-derived
+    assigns = {}
+    for n in unit.own_nodes():
+        if isinstance(n, ast.Assign):
+            for t in n.targets:
+                if isinstance(t, ast.Name):
+                    assigns.setdefault(t.id, []).append(n.value)
+                elif isinstance(t, (ast.Tuple, ast.List)):
+                    for e in t.elts:
+                        if isinstance(e, ast.Name):
+                            assigns.setdefault(e.id, []).append(None)
+        elif isinstance(n, (ast.For, ast.AugAssign)):
+            tg = n.target
+            for e in ast.walk(tg):
+                if isinstance(e, ast.Name) and isinstance(e.ctx, ast.Store):
+                    assigns.setdefault(e.id, []).append(None)
+    out |= {k for k in assigns if k not in unit.all_params}
     changed = True
     while changed:
         changed = False
-        for n in unit.own_nodes():
-            if isinstance(n, ast.Assign) and len(n.targets) == 1 and isinstance(n.targets[0], ast.Name):
-                if n.targets[0].id not in out and root_is_scope(n.value):
-                    out.add(n.targets[0].id)
-                    changed = True
+        for name in list(out):
+            if name in seeds and name not in assigns:
+                continue
+            vals = assigns.get(name, [])
+            ok = all(v is not None and root_is_scope(v) for v in vals)
+            if name in seeds:
+                ok = ok      # a rebound scope parameter must stay scope-derived
+            if not ok and not (name in seeds and not vals):
+                out.discard(name)
+                changed = True
     return out
